@@ -661,6 +661,7 @@ static PyObject* base_gemv(PyObject *self, PyObject *args, PyObject *kwrds)
   int id = MAT_ID(x);
   if (m < 0) m = X_NROWS(A);
   if (n < 0) n = X_NCOLS(A);
+  if (m > X_NROWS(A)) PY_ERR(PyExc_ValueError, "m exceeds A.size[0]");
   if ((!m && trans == 'N') || (!n && (trans == 'T' || trans == 'C')))
     return Py_BuildValue("");
 
@@ -914,6 +915,7 @@ static PyObject* base_symv(PyObject *self, PyObject *args, PyObject *kwrds)
     }
     n = X_NROWS(A);
   }
+  if (n > X_NROWS(A)) PY_ERR(PyExc_ValueError, "n exceeds A.size[0]");
   if (n == 0) return Py_BuildValue("");
 
   if (oA < 0) err_nn_int("offsetA");
